@@ -22,6 +22,16 @@ def pat(rx):
     return d
 
 
+class PromObj(Opaque):
+    """metrics objects: every method call chain is a no-op"""
+
+    def __init__(self):
+        Opaque.__init__(self, 'prom')
+
+    def go_invoke(self, ex, method, args):
+        return self
+
+
 class GoError(Opaque):
     """an error value created by errors.New / fmt.Errorf / a model; identity matters, text is opaque"""
 
@@ -536,7 +546,7 @@ def logging_meth(ex, args, name):
 
 @pat(r'^\(?\*?github\.com/prometheus/client_golang/prometheus(/promauto)?\.')
 def prom_any(ex, args, name):
-    return Opaque('prom')
+    return PromObj()
 
 
 @intr('invoke:global.Inc', 'invoke:global.Add', 'invoke:global.Observe', 'invoke:global.Set')
@@ -592,3 +602,34 @@ def dur_us(ex, args, name):
 @intr('(time.Duration).String')
 def dur_string(ex, args, name):
     return z3.Function('duration_string', z3.IntSort(), z3.StringSort())(zint(args[0]))
+
+
+# ---- sync/atomic on plain cells (sequential harnesses; schedule-quantified checks override these)
+@pat(r'^sync/atomic\.Load(Int32|Int64|Uint32|Uint64|Pointer)$')
+def atomic_load(ex, args, name):
+    ex.events.append(('atomic-load', args[0]))
+    return ex.load(args[0])
+
+
+@pat(r'^sync/atomic\.Store(Int32|Int64|Uint32|Uint64|Pointer)$')
+def atomic_store(ex, args, name):
+    ex.events.append(('atomic-store', args[0]))
+    ex.store(args[0], args[1])
+    return None
+
+
+@pat(r'^sync/atomic\.Add(Int32|Int64|Uint32|Uint64)$')
+def atomic_add(ex, args, name):
+    ex.events.append(('atomic-add', args[0]))
+    v = ex.binop('+', ex.load(args[0]), args[1], 'int64', 'int64')
+    ex.store(args[0], v)
+    return v
+
+
+@pat(r'^sync/atomic\.CompareAndSwap(Int32|Int64|Uint32|Uint64)$')
+def atomic_cas(ex, args, name):
+    ex.events.append(('atomic-cas', args[0]))
+    if ex.branch(ex.eq(ex.load(args[0]), args[1])):
+        ex.store(args[0], args[2])
+        return True
+    return False
